@@ -27,8 +27,10 @@ PARTIAL = [
     "agreement on other well-formed texts (blank lines, comments, CRLF, missing final newline) is correspondence only",
     "writer output independent of the container type: trivial in the model (the writer is a function of the record "
     "list), checked by correspondence (dict of str / dict of Sequence / tuple order / to_fasta / to_phylip)",
-    "GenBank minimal/rich and Clustal parsers are not modelled",
-    "PHYLIP interleaved parser branch (never produced by the writer) is not modelled",
+    "GenBank: MinimalGenbankParser and iter_genbank_records/minimal_parser are modelled for LOCUS / one-line and generic "
+    "fields / ORIGIN / '//'; the SOURCE, REFERENCE and FEATURES handlers and rich_parser's Sequence construction and "
+    "annotation db are correspondence only",
+    "Clustal, nexus, msf, xmfa, tinyseq/gbseq XML parsers: not modelled, not exercised (see registered_formats)",
     "construction of collections (moltype validation, upper-casing, duplicate-name check) is outside the model; the "
     "records the collection holds are the reference",
 ]
@@ -49,6 +51,18 @@ def bytes_split_variant():
         return 0
     if lines == ['records = re.split(rb"(?<![^\\n])>", data)']:
         return 1
+    return None
+
+
+def gb_strip_variant():
+    """iter_genbank_records: 0 = `if record.isspace():` (pinned), 1 = `record = record.lstrip()` + `if not record:`
+    (proposed fix C06-7); None = unrecognised (variant 0 used, the correspondence must show the difference)"""
+    src = (core.REPO / "src" / "cogent3" / "parse" / "genbank.py").read_text()
+    body = src[src.index('for record in data.split(b"\\n//"):'):][:400] if 'for record in data.split(b"\\n//"):' in src else ""
+    if "record = record.lstrip()" in body and "if not record:" in body:
+        return 1
+    if "if record.isspace():" in body:
+        return 0
     return None
 
 
@@ -189,7 +203,7 @@ def exhaustive_block(tier):
                     out.append(dict(kind="round", fmt=fmt, w=w, recs=[[n1, s1], [n2, s2]], moltype="dna",
                                     aligned=len(s1) == len(s2), suffix="", new_type=False, block="exhaustive"))
     if tier == "quick":
-        out = out[::29]
+        out = out[::41]
     else:
         out = out[::3]
     return out
@@ -307,6 +321,163 @@ def rand_parse_cases(rng, n):
                 body = t.split("\n", 1)
                 t = body[0] + "\n" + mutate_text(rng, body[1]) if len(body) > 1 else t
             out.append(dict(kind="parse", which=which, text=t, wf=None, block="random"))
+    return out
+
+
+def phylip_texts(recs, w, indent=10, blank=True, header="{n}  {m} I"):
+    """(interleaved text, sequential text) of an alignment, rendered here from the format description"""
+    n, m = len(recs), len(recs[0][1])
+    nb = (m + w - 1) // w
+    il = [header.format(n=n, m=m)]
+    for k in range(nb):
+        if k and blank:
+            il.append("")
+        for name, s in recs:
+            il.append((("%-10s" % name[:9]) if k == 0 else " " * indent) + s[k * w:(k + 1) * w])
+    sq = [f"{n}  {m}"]
+    for name, s in recs:
+        for k in range(nb):
+            sq.append((("%-10s" % name[:9]) if k == 0 else " " * 10) + s[k * w:(k + 1) * w])
+    return "\n".join(il) + "\n", "\n".join(sq) + "\n"
+
+
+def interleaved_cases(rng, ncases):
+    """generated interleaved PHYLIP texts (the writer never emits them) for the interleaved branch of the parser,
+    together with the sequential rendering of the same alignment"""
+    out = []
+    for i in range(ncases):
+        nrec = rng.choice([1, 2, 3, 4])
+        L = rng.choice([1, 2, 5, 9, 10, 11, 23])
+        w = rng.choice([1, 2, 3, 5, 10, 60])
+        names, recs = set(), []
+        for j in range(nrec):
+            n = rand_name(rng)
+            while (n[:9] in {x[:9] for x in names}) or n[:9] != n[:9].strip() or not n[:9]:
+                n = "s%d%s" % (j, rng.choice(["", "_long_name_x", " y"]))
+            names.add(n)
+            recs.append([n, rand_seq(rng, "dna", L)])
+        std = i % 2 == 0
+        if std:
+            indent, blank, header = 10, True, "{n}  {m} I"
+        else:
+            indent = rng.choice([0, 3, 10])
+            blank = rng.random() < 0.5
+            header = rng.choice(["{n}  {m} I", "{n} {m} I", " {n} {m}  I", "{n}  {m} interleaved"])
+        il, sq = phylip_texts(recs, w, indent, blank, header)
+        exp = [[n[:9], q] for n, q in recs]
+        out.append(dict(kind="parse", which=5, text=il, wf="phylip", expected=exp, block="interleaved",
+                        il_std=dict(w=w, recs=recs) if std else None,
+                        variant=f"indent{indent}:{'blank' if blank else 'noblank'}"))
+        out.append(dict(kind="parse", which=5, text=sq, wf="phylip", expected=exp, block="interleaved", il_std=None,
+                        variant="sequential"))
+    return out
+
+
+GB_EXTRA = ["DEFINITION  Homo sapiens test record.", "ACCESSION   AB000001", "VERSION     AB000001.1  GI:12345",
+            "KEYWORDS    .", "COMMENT     a comment\n            continued on a second line.", "DBLINK      BioProject: PRJ1"]
+
+
+def gb_text(recs, locus_style=0):
+    """a GenBank flat file rendered here from the format description: recs = [(name, [extra lines], seq)]"""
+    out = []
+    for name, extra, seq in recs:
+        if locus_style == 0:
+            out.append("LOCUS       %s %d bp    DNA" % (name, len(seq)))
+        else:
+            out.append("LOCUS       %-16s %7d bp    DNA     linear   UNA 01-JAN-2000" % (name, len(seq)))
+        out += extra
+        out.append("ORIGIN" + ("      " if locus_style else ""))
+        for i in range(0, len(seq), 60):
+            row = seq[i:i + 60]
+            out.append("%9d" % (i + 1) + "".join(" " + row[j:j + 10] for j in range(0, len(row), 10)))
+        out.append("//")
+    return "\n".join(out) + "\n"
+
+
+def wf_gb_records(t):
+    """oracle's own reading of a well-formed GenBank text (LOCUS name, residues of the ORIGIN block), or None"""
+    if not t.endswith("//\n"):
+        return None
+    recs = []
+    for block in t[:-3].split("//\n"):
+        lines = block.split("\n")
+        if lines[-1] == "":
+            lines = lines[:-1]
+        if not lines or not lines[0].startswith("LOCUS "):
+            return None
+        tok = lines[0].split()
+        if len(tok) < 3 or not tok[2].isdigit():
+            return None
+        try:
+            k = [ln.rstrip() for ln in lines].index("ORIGIN")
+        except ValueError:
+            return None
+        for ln in lines[1:k]:
+            if not ln or ln.split()[0] in ("SOURCE", "REFERENCE", "FEATURES", "LOCUS", "ORIGIN", "//"):
+                return None
+        seq = ""
+        for ln in lines[k + 1:]:
+            f = ln.split()
+            if not f or not f[0].isdigit() or not all(x.isalpha() and x.islower() for x in f[1:]):
+                return None
+            seq += "".join(f[1:])
+        if not seq:
+            return None
+        recs.append([tok[1], seq])
+    return recs
+
+
+def rand_gb_recs(rng, nrec):
+    recs = []
+    for i in range(nrec):
+        name = rng.choice(["AB123", "X2", "NC_000913", "seq%d" % i, "a|b", "Z9.1"]) + (str(i) if i else "")
+        L = rng.choice([1, 5, 9, 10, 11, 59, 60, 61, 75, 120, 121])
+        seq = "".join(rng.choice("acgtn") for _ in range(L))
+        extra = []
+        for e in rng.sample(GB_EXTRA, rng.choice([0, 0, 1, 2, 3])):
+            extra += e.split("\n")
+        recs.append((name, extra, seq))
+    return recs
+
+
+def gb_cases(rng, ncases):
+    out = []
+    for k in range(ncases):
+        nrec = rng.choice([1, 1, 2, 3])
+        recs = rand_gb_recs(rng, nrec)
+        t = gb_text(recs, rng.choice([0, 1]))
+        wf = True
+        if k % 3 == 2:       # ill-formed variants: model vs implementation only
+            wf = False
+            lines = t.split("\n")
+            r = rng.random()
+            i = rng.randrange(len(lines))
+            if r < 0.2:
+                lines.insert(i, "")
+            elif r < 0.35:
+                lines = [ln for ln in lines if ln != "//"] if rng.random() < 0.5 else lines[:-2]
+            elif r < 0.5:
+                lines.insert(0, rng.choice(["", " ", "junk"]))
+            elif r < 0.6:
+                lines = [ln.upper() if not ln.startswith(("LOCUS", "ORIGIN")) else ln for ln in lines]
+            elif r < 0.7:
+                lines = [ln for ln in lines if not ln.startswith("ORIGIN")]
+            elif r < 0.8:
+                lines[0] = rng.choice(["LOCUS", "LOCUS       nm", "LOCUS       nm xx bp", "locus       nm 5 bp"])
+            elif r < 0.9:
+                lines.insert(1, rng.choice(["Sequence    overriding", "Locus       other", "?           q", "WGS         AB01-AB09"]))
+            else:
+                lines[i] = lines[i] + "  "
+            t = "\n".join(lines)
+            if rng.random() < 0.2:
+                t = t.rstrip("\n")
+        base = dict(text=t, wf_gb=wf, nrec=nrec, block="genbank")
+        for which in (0, 1) + ((3, 4) if wf else ()):
+            out.append(dict(base, kind="gb", which=which))
+        if wf:
+            for suffix in rng.sample(["", ".gz", ".bz2"], 2):
+                for n in (rng.choice([1, 2, 3, 7, 61]), ["disk", rng.choice([-1, 0, 1])], ["len", -1]):
+                    out.append(dict(base, kind="gbstream", n=n, suffix=suffix))
     return out
 
 
@@ -662,7 +833,7 @@ def from_val_recs(v):
 
 # ------------------------------------------------------------------ the check
 
-def build_model_cases(cases, impl, variant=0):
+def build_model_cases(cases, impl, variant=0, gb_variant=0):
     """-> list of (case index, tag, coq term)"""
     mc = []
     fasta_round_id = 4 if variant == 1 else 0
@@ -690,10 +861,18 @@ def build_model_cases(cases, impl, variant=0):
         elif k == "parse":
             if modelable(c["text"]):
                 mc.append((i, "parse", f"CParse {bytes_which if c['which'] == 2 else c['which']} {zstr(c['text'])}"))
+            if c.get("il_std"):
+                mc.append((i, "ilwrite", f"CPhylipILWrite {zlit(c['il_std']['w'])} {crecs(c['il_std']['recs'])}"))
         elif k == "split":
             mc.append((i, "split", f"CSplit {zstr(c['text'])}"))
         elif k == "iter":
             mc.append((i, "iter", f"CIter {zlit(c['n'])} {zstr(c['text'])}"))
+        elif k == "gb":
+            if c["which"] in (0, 1) and modelable(c["text"]):
+                mc.append((i, "gb", f"CGb {0 if c['which'] == 0 else 1 + gb_variant} {zstr(c['text'])}"))
+        elif k == "gbstream":
+            if isinstance(r, dict) and "n_used" in r:
+                mc.append((i, "gbstream", f"CGbStream {zlit(r['n_used'])} {zstr(c['text'])}"))
         elif k == "stream":
             if "text" in r and modelable(r["text"]):
                 which = {"gde": 3, "phylip": 5, "paml": 6}[c["fmt"]]
@@ -756,6 +935,40 @@ def check_round(rep, c, r, stats):
     return False
 
 
+# which registered formats (cogent3.parse.sequence.PARSERS / XML_PARSERS, cogent3.format.alignment.FORMATTERS) this check
+# covers and how
+FORMAT_COVERAGE = {
+    "theorem+correspondence": {
+        "parsers": ["fasta", "mfa", "fa", "faa", "fna", "gde", "phylip", "paml", "gb", "gbk", "gbff", "genbank"],
+        "formatters": ["fasta", "mfa", "fa", "gde", "phylip", "paml"],
+    },
+    "correspondence only": {
+        "parsers": [], "formatters": [],
+        "other": ["json (write / load_*_seqs; the to_json / deserialise round trip itself is the subject of C10)",
+                  "compression suffixes .gz / .bz2"],
+    },
+    "not covered": {
+        "parsers": ["xmfa", "aln", "clustal", "msf", "nex", "nxs", "nexus"], "xml_parsers": ["gbseq", "tseq"],
+        "formatters": [], "other": ["compression suffix .zip"],
+    },
+}
+
+
+def registered_formats(reg):
+    """the coverage table checked against the registries of the current source: anything registered that the table
+    does not know is listed under `unlisted` (not covered)"""
+    known_p = set(FORMAT_COVERAGE["theorem+correspondence"]["parsers"]) | set(FORMAT_COVERAGE["not covered"]["parsers"])
+    known_x = set(FORMAT_COVERAGE["not covered"]["xml_parsers"])
+    known_f = set(FORMAT_COVERAGE["theorem+correspondence"]["formatters"])
+    out = dict(FORMAT_COVERAGE)
+    if isinstance(reg, dict) and "parsers" in reg:
+        out["registered"] = reg
+        out["unlisted"] = {"parsers": sorted(set(reg["parsers"]) - known_p), "xml_parsers": sorted(set(reg["xml_parsers"]) - known_x),
+                           "formatters": sorted(set(reg["formatters"]) - known_f)}
+        out["no_longer_registered"] = sorted((known_p - set(reg["parsers"])) | (known_f - set(reg["formatters"])))
+    return out
+
+
 def chunk_class(n, csize, dlen):
     """where the chunk size lies relative to the size on disk and the decoded length"""
     if n is None:
@@ -793,6 +1006,10 @@ def coverage_matrix(cases, impl):
             regime = "shrinks" if cs < dl else "grows/equal"
             add(f"parser({c['fmt']})+iter_splitlines", c["suffix"], regime, chunk_class(r["n_used"], cs, dl))
             add(f"load_seqs({c['fmt']})", c["suffix"], regime, chunk_class(None, cs, dl))
+        elif k == "gbstream" and "n_used" in r:
+            dl, cs = len(c["text"]), r["csize"]
+            add("parser(genbank-lines)+iter_splitlines", c["suffix"], "shrinks" if cs < dl else "grows/equal",
+                chunk_class(r["n_used"], cs, dl))
         elif k == "round" and "text" in r:
             add(f"load_seqs({c['fmt']})", c["suffix"], "any", "default-1e6>disk")
         elif k == "big" and "csize" in r:
@@ -836,8 +1053,10 @@ def run(tier: str, seed: int) -> int:
         mult *= 3
     cases = corpus_cases()
     cases += exhaustive_block(tier)
-    cases += [rand_round(rng) for _ in range(200 * mult)]
-    cases += rand_parse_cases(rng, 160 * mult)
+    cases += [rand_round(rng) for _ in range(150 * mult)]
+    cases += rand_parse_cases(rng, 120 * mult)
+    cases += interleaved_cases(rng, 24 * mult)
+    cases += gb_cases(rng, 12 * mult)
     cases += exhaustive_iter(tier)
     cases += rand_iter_cases(rng, 50 * mult)
     cases += grid_iter_cases(rng)
@@ -845,12 +1064,16 @@ def run(tier: str, seed: int) -> int:
     cases += compressed_iter_cases(rng, 8 * mult)
     cases += stream_cases(rng, 8 * mult)
     cases += big_cases(tier)
+    cases.append(dict(kind="registry", block="registry"))
 
     impl = core.run_impl_sharded("c06_impl.py", cases)
     variant = bytes_split_variant()
     if variant is None:
         rep.notes.append("parse/fasta.py: record splitting expression of the bytes parser not recognised; model variant 0 used")
-    mc = build_model_cases(cases, impl, variant or 0)
+    gbv = gb_strip_variant()
+    if gbv is None:
+        rep.notes.append("parse/genbank.py: record loop of iter_genbank_records not recognised; model variant 0 used")
+    mc = build_model_cases(cases, impl, variant or 0, gbv or 0)
     model = None
     try:
         model = run_model(mc)
@@ -861,6 +1084,7 @@ def run(tier: str, seed: int) -> int:
         model = {}
 
     stats = dict(explicit_refusals=0, outside_spec=0)
+    registry = None
     disagreements = []
     nvio = 0
     nontrivial = set()
@@ -879,6 +1103,9 @@ def run(tier: str, seed: int) -> int:
             nvio += 1
             rep.violation(f"impl-crash:{k}", dict(case=small(c), expected_by_spec=None, observed_impl=r, model_output=None,
                                                   broken="implementation runner raised/hung outside the observed stages"))
+            continue
+        if k == "registry":
+            registry = r
             continue
         if k == "round":
             if "err" in r and r["err"]["stage"] == "make":
@@ -911,12 +1138,51 @@ def run(tier: str, seed: int) -> int:
                 continue
             if isinstance(res, list) and res:
                 nontrivial.add(json.dumps([c["which"], c["text"]]))
-            if c.get("wf"):
+            if c.get("wf") == "phylip":
+                if res_c != c["expected"]:
+                    nvio += 1
+                    rep.violation(f"phylip-branches:{c['variant']}",
+                                  dict(case=small(c), expected_by_spec=c["expected"], observed_impl=res_c, model_output=None,
+                                       broken="the sequential and the interleaved branch of MinimalPhylipParser must both "
+                                              "return the alignment (names truncated to 9) from its rendering"))
+                    continue
+                if (i, "ilwrite") in model and model[(i, "ilwrite")] != c["text"]:
+                    dis("ilwrite", c, c["text"], model[(i, "ilwrite")])
+            elif c.get("wf"):
                 agree_groups.setdefault((c["wf"], c["text"]), {})[c["which"]] = res_c
             if (i, "parse") in model:
                 m = from_val_recs(model[(i, "parse")])
                 if m is not None and m != res_c:
                     dis(f"parse:{c['which']}", c, res_c, m)
+        elif k in ("gb", "gbstream"):
+            res = r["result"]
+            res_c = {"exc": res["exc"]} if isinstance(res, dict) else res
+            if r.get("routes_differ"):
+                nvio += 1
+                rep.violation("parser-routes:genbank", dict(case=small(c), expected_by_spec="same records from bytes and path",
+                                                            observed_impl=r, model_output=None,
+                                                            broken="minimal_parser gives different records by input route"))
+                continue
+            exp = wf_gb_records(c["text"]) if c.get("wf_gb") else None
+            if exp is not None:
+                lower_ok = (k == "gbstream" or c["which"] == 0)
+                want = exp if lower_ok else [[n_, q.upper()] for n_, q in exp]
+                if res_c != want:
+                    nvio += 1
+                    what = "stream" if k == "gbstream" else {0: "minimal-lines", 1: "bytes-readers", 3: "bytes-readers", 4: "bytes-readers"}[c["which"]]
+                    rep.violation(f"genbank-parsers:{what}:{'multi' if c['nrec'] > 1 else 'single'}-record",
+                                  dict(case=small(c), expected_by_spec=want, observed_impl=res_c, model_output=None,
+                                       broken="a GenBank reader does not return (LOCUS name, ORIGIN residues) of every record of a "
+                                              "well-formed flat file (MinimalGenbankParser / minimal_parser / rich_parser / "
+                                              "load_unaligned_seqs must agree, residues modulo case)"))
+                    continue
+                nontrivial.add(json.dumps([k, c.get("which"), c.get("n"), c.get("suffix"), c["text"]]))
+            key = "gb" if k == "gb" else "gbstream"
+            if (i, key) in model:
+                m = model[(i, key)]
+                mj = {"exc": m.code} if isinstance(m, Exc) else (None if m is None else [[a, b] for a, b in m])
+                if mj is not None and mj != res_c:
+                    dis(f"{key}:{c.get('which', '')}", c, res_c, mj)
         elif k == "stream":
             if "made" not in r or "text" not in r:
                 stats["explicit_refusals"] += 1
@@ -1002,7 +1268,9 @@ def run(tier: str, seed: int) -> int:
              "width, parse case yielding >= 1 record, iter case with >= 2 lines and chunk size < len(text)",
         samples=samples, input_distribution=dict(cases=len(cases), model_cases=len(mc), by_kind=dist, matrix=matrix,
                                                  never_produced=never, **stats),
-        partial=PARTIAL, exhaustive=False, translator_tie=f"bytes-parser split variant {variant}", model_impl_disagreements=len(disagreements), spec_violations=nvio,
+        partial=PARTIAL, exhaustive=False, registered_formats=registered_formats(registry),
+        json_clause="JSON: C06 keeps write / load_*_seqs correspondence (old and new collection types, plain and compressed); "
+                    "the to_json / deserialise round trip of collections and alignments is the subject of property C10", translator_tie=f"fasta bytes-parser split variant {variant}; genbank record-strip variant {gbv}", model_impl_disagreements=len(disagreements), spec_violations=nvio,
     )
     if os.environ.get("C06_DEBUG"):
         for d_ in disagreements[:40]:
@@ -1043,6 +1311,14 @@ def replay(path: str) -> int:
 
         rr = _R()
         bad = check_round(rr, c, r, dict(explicit_refusals=0, outside_spec=0)) if "made" in r else False
+    elif c["kind"] in ("gb", "gbstream"):
+        exp = wf_gb_records(c["text"]) if c.get("wf_gb") else None
+        res = r.get("result")
+        res = {"exc": res["exc"]} if isinstance(res, dict) else res
+        if exp is not None and not (c["kind"] == "gbstream" or c["which"] == 0):
+            exp = [[a, b.upper()] for a, b in exp]
+        print("oracle:", exp)
+        bad = exp is not None and res != exp
     elif c["kind"] == "stream":
         exp = expected_round(c, r["made"]) if "made" in r else None
         print("oracle:", exp)
@@ -1055,6 +1331,9 @@ def replay(path: str) -> int:
         exp = c["text"].splitlines()
         print("oracle:", exp)
         bad = only_nl(c["text"]) and r.get("result") != exp
+    elif c["kind"] == "parse" and c.get("wf") == "phylip":
+        print("oracle:", c["expected"])
+        bad = r.get("result") != c["expected"]
     elif c["kind"] == "parse":
         bad = bool(r.get("routes_differ")) or r.get("result") != d.get("observed_impl", r.get("result")) and False
         if d.get("model_output") is not None:
